@@ -98,6 +98,29 @@ var Faults = []Fault{
 		q.FixSizes()
 		w.Raw = q.Encode()
 	}, MinLevel: LvlBase},
+	{Name: "quote-carries-an-expired-edition-of-the-trusted-root", Post: func(w *World) {
+		// the root certificate IN THE QUOTE is an edition (same name, same key) that expired an hour before the
+		// verification time; the relying party trusts the current edition. The intermediate verifies under both, x509 path
+		// building is content with the trusted edition - the expired certificate the quote carries is refused all the same,
+		// at every level
+		spec := w.PKI.Spec
+		rk := spec.RootKeyLabel
+		if rk == "" {
+			rk = spec.Seed + "/root"
+		}
+		old := MakeCert(CertSpec{CN: CNRoot, KeyLabel: rk, Serial: serialOr(nil, spec.Seed+"/root-expired-edition"), NotBefore: Wide.NotBefore, NotAfter: w.Times.PckCertChain.Add(-time.Hour).Truncate(time.Second), CA: true, CRLDP: spec.RootCRLDP, SKI: spec.RootSKI, RawSubject: spec.RootRawSubject}, nil)
+		q := w.Q.Clone()
+		q.Chain = ChainPEM(w.Leaf, w.PKI.Int, old)
+		q.FixSizes()
+		w.Raw = q.Encode()
+	}, MinLevel: LvlBase},
+	{Name: "qe-identity-signed-under-a-look-alike-of-the-trusted-root", Post: func(w *World) {
+		// the QE Identity (same content) re-signed by a certificate issued under a root that copies the trusted root byte
+		// for byte - serial, names, validity, even the signature value - except for its public key
+		fake := LookAlikeKeepingSignature(w.PKI.Root, DeriveKey("fault/look-alike-root-key"))
+		signer := MakeCert(CertSpec{CN: CNTcbSigner, KeyLabel: "fault/look-alike-signer", Serial: w.PKI.QeSig.X.SerialNumber.Bytes(), NotBefore: Wide.NotBefore, NotAfter: Wide.NotAfter, CRLDP: w.PKI.Spec.RootCRLDP}, fake)
+		w.Resp[QeIdentityURL] = Response{Header: map[string][]string{HdrQeID: {IssuerChainHeader(signer, fake)}}, Body: SignedBody("enclaveIdentity", w.QeID.Render(), signer.Key)}
+	}, MinLevel: LvlColl},
 	{Name: "issuer-chain-header-only-under-two-other-spellings", Post: func(w *World) {
 		// no header under the canonical name; the genuine chain under an all-lower-case name and a foreign chain under
 		// an all-upper-case name: whichever a tolerant lookup would pick, it must pick the same one every time
